@@ -369,6 +369,8 @@ def single_chunk_history(ctx, R="R-C01-one-chunk-history"):
         state = {}
         for attr in ("self._buf_len", "self._first_frame"):
             v = ev1.env.get(attr)
+            if v is None and attr in seed:
+                v = seed[attr] if isinstance(seed[attr], S.E) else S.lift(seed[attr])  # never written on this configuration's paths: the entry value stays
             ctx.need(v is not None and not S.has_unknown(v), R, "[%s] %s after compute_chunk has no closed form: %s" % (name, attr, S.show(v)[:80] if v is not None else None))
             state[attr] = sc.canon_len(v, [sig])
         extra = {k: sc.canon_len(v, [sig]) for k, v in ev1.env.items() if k.startswith("self._") and k not in state and k not in ("self._buf",)
